@@ -201,3 +201,7 @@ func vquiesce() {
 }
 func vsymbolic() bool  { return false }
 func vnote(s string)   {}
+
+// vottoSlow tells the engine's otto model how long the "slow" script runs (natively the
+// real script sleeps by itself).
+func vottoSlow(ns int64) {}
